@@ -179,9 +179,9 @@ theorem store_is_function_of_chain_no_restart (chain : List (List Tx)) (k : Bool
   have := (get_runChain_noRestart chain (s := QStore.init) (f := fun _ _ => none) synced_init (by simp)).2 k a
   simpa using this
 
-/-- the `canonical` hypothesis is necessary: a non-nil empty payload object (which no decoded block contains, but a
-locally created transaction object can) is held as such until the next restart and as nil afterwards.
-`qualifyCandidate` (qualification.go:240) tells the two apart (`answerBytes == nil` ⇒ "no answer"). -/
+/-- the `canonical` hypothesis is necessary for the *raw contents*: a non-nil empty payload object (which no decoded
+block contains, but a locally created transaction object can) is held as such until the next restart and as nil
+afterwards.  What the evaluation reads no longer depends on it: `store_view_is_function_of_chain`. -/
 theorem restart_visible_for_noncanonical_payload :
     ∃ (chain : List (List Tx)) (sch : List BlockSched) (k : Bool) (a : Nat),
       (QStore.init.runChain chain sch).get k a ≠ (QStore.init.runChain chain []).get k a :=
@@ -193,30 +193,9 @@ answers transaction of each kind in the chain (`validateCeremonyTx` refuses a se
 theorem store_after_reorg (s : QStore) (P S : List Tx) (h : AtBoundary s (firstWrite (P ++ S)))
     (hnd : ((P ++ S).map fun t => (t.short, t.sender)).Nodup) :
     AtBoundary (s.revert S) (firstWrite P) := by
-  have hsy := synced_removeAll h.synced S
-  have hp := persist_spec hsy
+  have hp := persist_spec (synced_removeAll h.synced S)
   have key : ∀ k a, (S.foldl (fun s t => s.remove t.short t.sender) s).get k a = firstWrite P k a := by
-    intro k a
-    rw [get_removeAll, h.mem, firstWrite_append]
-    by_cases hS : (S.any fun t => t.short == k && t.sender == a) = true
-    · simp only [hS, if_true]
-      -- the sender has a transaction in S, hence none in P
-      symm
-      rw [firstWrite_eq_none_iff]
-      cases hP : (P.any fun t => t.short == k && t.sender == a) with
-      | false => rfl
-      | true =>
-        exfalso
-        simp only [List.any_eq_true, Bool.and_eq_true, beq_iff_eq] at hS hP
-        obtain ⟨t, ht, h1, h2⟩ := hS
-        obtain ⟨u, hu, h3, h4⟩ := hP
-        rw [List.map_append, List.nodup_append] at hnd
-        exact hnd.2.2 (u.short, u.sender) (List.mem_map.mpr ⟨u, hu, rfl⟩) (t.short, t.sender)
-          (List.mem_map.mpr ⟨t, ht, rfl⟩) (by rw [h1, h2, h3, h4])
-    · simp only [Bool.not_eq_true] at hS
-      simp only [hS, Bool.false_eq_true, if_false]
-      rw [(firstWrite_eq_none_iff S k a).mpr hS]
-      cases firstWrite P k a <;> rfl
+    intro k a; rw [get_removeAll, h.mem]; exact firstWrite_revert P S hnd k a
   refine ⟨?_, ?_, hp.1⟩
   · intro k a; show (S.foldl _ s).persist.get k a = _; rw [hp.2.1, key]
   · intro k a; show (S.foldl _ s).persist.getDb k a = _; rw [hp.2.2, key]
@@ -233,6 +212,57 @@ theorem store_after_reorg_continues (s : QStore) (P S : List Tx) (chain' : List 
 theorem reorg_needs_unique_senders :
     ∃ (P S : List Tx), ((QStore.init.runChain [P, S] []).revert S).get true 1 ≠ firstWrite P true 1 :=
   ⟨[⟨true, 1, .bytes [7]⟩], [⟨true, 1, .bytes [8]⟩], by decide⟩
+
+/-! ### the evaluation-relevant observation needs no assumption on payloads (the code as it is after the repair of F24) -/
+
+/-- **What the epoch evaluation reads from the store is a function of the chain — for every chain, every payload
+(nil, empty, non-empty; decoded or locally created objects) and every schedule of crashes and restarts**: since
+`qualifyCandidate` treats an empty payload like a missing one (`len(answerBytes) == 0`), the only thing a restart
+changes (empty ↦ nil) is invisible.  Holds for the in-memory store and for what a restart would load from disk. -/
+theorem store_view_is_function_of_chain (chain : List (List Tx)) (scheds : List BlockSched) (k : Bool) (a : Nat) :
+    (QStore.init.runChain chain scheds).view k a = viewOf (firstWrite chain.flatten k a) ∧
+    (QStore.init.runChain chain scheds).restart.view k a = viewOf (firstWrite chain.flatten k a) := by
+  have h0 : AtBoundaryN QStore.init (firstWrite []) := by
+    have : firstWrite [] = fun _ _ => none := by funext k a; rfl
+    rw [this]; exact atBoundary_init.toN
+  have h := atBoundaryN_runChain chain scheds h0
+  simp only [List.nil_append] at h
+  refine ⟨viewOf_congr (h.mem k a), ?_⟩
+  have h2 := atBoundaryN_crash_restart h []
+  exact viewOf_congr (h2.mem k a)
+
+/-- two nodes on the same chain evaluate the same answers, restarted or not, whoever created the transactions -/
+theorem store_view_restart_invisible (chain : List (List Tx)) (s₁ s₂ : List BlockSched) (k : Bool) (a : Nat) :
+    (QStore.init.runChain chain s₁).view k a = (QStore.init.runChain chain s₂).view k a := by
+  rw [(store_view_is_function_of_chain chain s₁ k a).1, (store_view_is_function_of_chain chain s₂ k a).1]
+
+/-- reorganisation, same observation, no assumption on payloads -/
+theorem store_view_after_reorg (s : QStore) (P S : List Tx) (chain' : List (List Tx)) (scheds : List BlockSched)
+    (h : AtBoundaryN s (firstWrite (P ++ S)))
+    (hnd : ((P ++ S).map fun t => (t.short, t.sender)).Nodup) (k : Bool) (a : Nat) :
+    ((s.revert S).runChain chain' scheds).view k a = viewOf (firstWrite (P ++ chain'.flatten) k a) := by
+  have hp := persist_specN (syncedN_removeAll h.synced S)
+  have key : ∀ k a, nrm ((S.foldl (fun s t => s.remove t.short t.sender) s).get k a) = nrm (firstWrite P k a) := by
+    intro k a
+    rw [get_removeAll, ← firstWrite_revert P S hnd k a]
+    split
+    · rfl
+    · exact h.mem k a
+  have hb : AtBoundaryN (s.revert S) (firstWrite P) := by
+    refine ⟨?_, ?_, hp.1⟩
+    · intro k a; show nrm ((S.foldl _ s).persist.get k a) = _; rw [hp.2.1, key]
+    · intro k a; show nrm ((S.foldl _ s).persist.getDb k a) = _; rw [hp.2.2, key]
+  exact viewOf_congr ((atBoundaryN_runChain chain' scheds hb).mem k a)
+
+/-- **Witness (finding F24, the code as found before the repair, `answerBytes == nil`)**: a locally created
+long-answers transaction with a non-nil empty payload is an answer for its creator until the next restart and no
+answer for everybody else — with the repaired reading the same history shows no difference. -/
+theorem empty_payload_visible_as_found :
+    let chain : List (List Tx) := [[⟨false, 1, .bytes []⟩]]
+    (QStore.init.runChain chain []).viewAsFound false 1 = some [] ∧
+    (QStore.init.runChain chain [⟨[], 1⟩]).viewAsFound false 1 = none ∧
+    (QStore.init.runChain chain []).view false 1 = (QStore.init.runChain chain [⟨[], 1⟩]).view false 1 := by
+  decide
 
 /-! ## Part B.2 — cached re-evaluation equals the first evaluation -/
 
